@@ -734,8 +734,8 @@ struct Cell {
     explicit Cell(bool exclusive): magic(MAGIC), excl(exclusive) { born(); }
     Cell(const Cell& o): magic(MAGIC)
     {
+        maybe_throw(1);  // before anything is counted: an object whose constructor throws never existed
         born();
-        maybe_throw(1);
         o.enter(false);
         copy_from(o);
         o.exit(false);
@@ -985,8 +985,16 @@ struct AllocState {
     uint64_t node_destroys_with_live_handle = 0;    // reclamation while another handle is alive (the non-trivial case)
     std::atomic<uint64_t> frees_with_live_handle{0};
 
+    std::atomic<long> fail_countdown{0};  // > 0: the k-th allocation *of thread fail_uid* from now throws std::bad_alloc
+    std::atomic<int> fail_uid{0};
+    std::atomic<uint64_t> alloc_failures{0};
     void* allocate(size_t bytes)
     {
+        if (fail_countdown.load(std::memory_order_relaxed) > 0 && fail_uid.load(std::memory_order_relaxed) == ctx().uid &&
+            fail_countdown.fetch_sub(1, std::memory_order_relaxed) == 1) {
+            alloc_failures.fetch_add(1, std::memory_order_relaxed);
+            throw std::bad_alloc();
+        }
         void* p = ::operator new(bytes);
         std::lock_guard<std::mutex> l(mu);
         blocks[p] = Blk{bytes, true, 0};
@@ -1080,10 +1088,19 @@ struct AllocState {
             if (b.second.allocated && b.second.constructed) k++;
         return k;
     }
-    // end of round: give the quarantined memory back
-    void reset()
+    // end of round: give the quarantined memory back. drop_leaked: also release blocks the list never freed (only used
+    // after rounds with injected allocator failures, where leak accounting is deliberately not judged)
+    void reset(bool drop_leaked = false)
     {
         std::lock_guard<std::mutex> l(mu);
+        if (drop_leaked) {
+            for (auto it = blocks.begin(); it != blocks.end();) {
+                if (it->second.allocated) {
+                    ::operator delete(it->first);
+                    it = blocks.erase(it);
+                } else ++it;
+            }
+        }
         for (auto& q : quarantine) {
 #if VRF_ASAN
             __asan_unpoison_memory_region(q.first, q.second);
